@@ -126,7 +126,7 @@ def wf_filter(sets: list[dict], drv: core.Driver, jobs: int) -> list[dict]:
 
 
 def run(run: core.Run) -> int:
-    n = 400 if run.tier == "quick" else 8000
+    n = 1200 if run.tier == "quick" else 8000
     prep = core.lean_prepare(MODULES)
     aud = core.audit(THEOREMS, MODULES) if prep["proofs_ok"] else {"obligations": len(THEOREMS), "discharged": 0, "ok": False, "theorems": {}}
     if not prep["driver_ok"]:
